@@ -298,12 +298,12 @@ def run_session(case):
     return cfg, model, key, c, peer, trace, obs
 
 
-def decode_trace(dec, trace, model, rsa, c2):
+def decode_trace(dec, trace, model, rsa, c2, keys=None):
     """Feeds the trace to a decoder; returns (list of normalised packets per message, error or None)."""
     out = []
     for direction, wire, what in trace:
         try:
-            pk = list(dec.iter_recover_http(wire))
+            pk = list(dec.iter_recover_http(wire) if keys is None else dec.iter_recover_http(wire, keys=keys))
         except ValueError as e:
             out.append(("ValueError", str(e)[:80]))
             continue
@@ -398,6 +398,8 @@ def judge(case, ctx):
         "trace.rsa_plus_aes": dict(rsa_private_key=key, aes_key=client.aes_key),
         # AES key alone can only decrypt without verification
         "trace.aes_noverify": dict(aes_key=client.aes_key, verify_hmac=False),
+        # a decoder that holds ANOTHER session's keys, given this session's keys per call (keys=): the per-call keys decide
+        "trace.keys_argument": dict(aes_rand=bytes(b ^ 0x5A for b in client.aes_rand)),
     }
     for name, kw in variants.items():
         if ctx:
@@ -406,7 +408,8 @@ def judge(case, ctx):
             dec = c2.C2Http(cfg, **kw)
         except Exception as e:  # noqa: BLE001
             return (name, f"[{name}] decoder construction for a well-formed HTTP configuration raised {type(e).__name__}: {e}", None)
-        got = decode_trace(dec, trace, model, "rsa_private_key" in kw, c2)
+        per_call = c2.BeaconKeys.from_aes_rand(client.aes_rand) if name == "trace.keys_argument" else None
+        got = decode_trace(dec, trace, model, "rsa_private_key" in kw, c2, keys=per_call)
         exp = expected_trace(trace, client, peer, obs, "rsa_private_key" in kw)
         if name == "trace.aes_noverify" and case["seed"] % 4:
             continue  # sampled: a quarter of the sessions
